@@ -535,6 +535,8 @@ func mutate(r *vh.RNG, count uint32, hashes []pmtref.Hash, flags []byte) []mutan
 }
 
 func mutationStream(r *vh.RNG, rounds int, maxN int, coqEvery int, coqMaxN int, tableMaxN int) {
+	t0 := time.Now()
+	defer func() { rep.Extra["mutation_seconds"] = time.Since(t0).Seconds() }()
 	s := newSink()
 	k := 0
 	for i := 0; i < rounds; i++ {
@@ -638,6 +640,8 @@ func twoChildNodes(t *pmtref.Tree, h uint, out *[]*pmtref.Tree, hs *[]uint) {
 // a hash, making that hash equal to the other child's hash must be rejected (CVE-2012-2459 at every
 // height, pruned-vs-recomputed included); (d) one hash fewer / one hash more must be rejected.
 func skeletonFamily(r *vh.RNG, maxN int, coqPerN int) {
+	t0 := time.Now()
+	defer func() { rep.Extra["skeleton_seconds"] = time.Since(t0).Seconds() }()
 	s := newSink()
 	for n := 1; n <= maxN; n++ {
 		H := pmtref.Height(uint64(n))
